@@ -51,11 +51,12 @@ type VerifStickyTrace struct {
 	SortUnassigned  []VerifTP
 	Picks           []VerifTP
 	Events          int
+	Other           map[string]int // reports of kinds this shim does not know (scratch instrumentation)
 }
 
 // VerifStickyPlan runs a fresh stickyBalanceStrategy.Plan with the observer installed; a panic is recovered and reported.
 func VerifStickyPlan(members map[string]ConsumerGroupMemberMetadata, topics map[string][]int32) (plan BalanceStrategyPlan, tr *VerifStickyTrace, err error, panicked string) {
-	tr = &VerifStickyTrace{}
+	tr = &VerifStickyTrace{Other: map[string]int{}}
 	tpOf := func(a []interface{}) VerifTP { return VerifTP{a[0].(string), a[1].(int32)} }
 	VerifSetObserver(func(kind string, a ...interface{}) {
 		tr.Events++
@@ -80,6 +81,8 @@ func VerifStickyPlan(members map[string]ConsumerGroupMemberMetadata, topics map[
 			tr.SortUnassigned = append(tr.SortUnassigned, tpOf(a))
 		case "sticky.pick":
 			tr.Picks = append(tr.Picks, tpOf(a))
+		default:
+			tr.Other[kind]++
 		}
 	})
 	defer VerifSetObserver(nil)
